@@ -63,7 +63,7 @@ def main():
             print("demo output on unchanged tree:\n", (r0.stdout + r0.stderr)[-1500:])
         if not a.skip_suite:
             t0 = time.time()
-            rs = sh(["/venv/bin/python", "-m", "pytest", "-q", "-p", "no:cacheprovider", "--timeout=900", "tests"], cwd=scratch)
+            rs = sh(["/venv/bin/python", "-m", "pytest", "-q", "-p", "no:cacheprovider", "--timeout=900", "tests"], cwd=scratch, env=dict(os.environ, OMP_NUM_THREADS="2", MKL_NUM_THREADS="2"))
             line = [l for l in rs.stdout.splitlines() if "passed" in l or "failed" in l or "error" in l][-1:]
             meta["suite_with_patch"] = line[0] if line else rs.stdout[-300:]
             print("suite with patch: %s (%.0fs)" % (meta["suite_with_patch"], time.time() - t0))
